@@ -4,7 +4,7 @@ from collections import deque
 from fractions import Fraction
 from hypothesis import strategies as st
 
-from vpm.core import Prop
+from vpm.core import Prop, ExhaustiveProp
 from vpm.labels import enc, dec
 
 PROPERTY_ID = "C05"
@@ -271,7 +271,32 @@ def prop_reuse(case, ctx):
     ctx.nontrivial(case["a"] != case["b"])
 
 
+def all_small_graphs(tier):
+    """every directed multigraph on n nodes (n <= 2 quick, n <= 3 thorough) in which each node has, for each of two
+    actions, either no edge or an edge (target, cost in {0, 1}); every goal subset; start node 0 (by symmetry)"""
+    import itertools
+    for n in ([1, 2, 3] if tier == "thorough" else [1, 2]):
+        per_action = [None] + [(v, c) for v in range(n) for c in (0, 1)]
+        node_opts = list(itertools.product(per_action, repeat=2))
+        for nodes in itertools.product(node_opts, repeat=n):
+            edges = [[[a, e[0], e[1]] for a, e in enumerate(opt) if e is not None] for opt in nodes]
+            for gmask in range(2 ** n):
+                yield {"graph": {"n": n, "labels": list(range(n)), "edges": edges,
+                                 "goals": [u for u in range(n) if gmask >> u & 1], "start": 0,
+                                 "rep": ["next_state", "det", "dict1", "unif1", "dsp"][(gmask + n) % 5],
+                                 "init_rep": ["initial_state", "det", "dict1", "unif1"][gmask % 4]},
+                       "heuristic": "zero", "tie_breaking": ["lifo", "fifo"][gmask % 2], "randomize_action_order": False,
+                       "seed": None}
+
+
+def prop_both(case, ctx):
+    prop_astar(case, ctx)
+    prop_bfs(case, ctx)
+
+
 PROPS = [
+    ExhaustiveProp("small_graphs_exhaustive", all_small_graphs, prop_both,
+                   doc="ALL multigraphs with <=2 nodes (quick) / <=3 nodes (thorough), 2 actions, costs {0,1}, every goal subset: A* and BFS"),
     Prop("reuse", lambda tier: reuse_cases(tier), prop_reuse, quick=600, thorough=36000,
          doc="a search object reused on a second problem gives the same result as a fresh one"),
     Prop("astar", lambda tier: astar_cases(tier), prop_astar, quick=4000, thorough=300000,
